@@ -112,7 +112,7 @@ def writesTo (t : Nat) : Op α → Bool
   | .remif h _ _ | .apnd h _ | .copy h _ | .copyp h _ | .appp h _ | .set h _ _ | .pop h | .popn h _ | .popget h
   | .qget h | .appown h _ _ | .copyown h _ _ | .remx h _ _ => h == t
   | .cp h g | .asg h g => h == t || g == t
-  | .slice t' _ _ _ | .clone t' _ | .concat t' _ _ | .rev t' _ | .filt t' _ _ _ => t' == t
+  | .slice t' _ _ _ | .clone t' _ | .concat t' _ _ | .rev t' _ | .filt t' _ _ _ | .slicee t' _ _ => t' == t
   | .get _ _ | .idx _ _ _ | .last _ | .eq _ _ | .top _ _ | .iter _ => false
 
 theorem specStep_iso [DecidableEq α] (E : Elem α) {sp : Sp α} {t c : Nat} {l : List α} (hi : Iso sp t c l) (hT : T0 ≠ t)
